@@ -40,6 +40,7 @@ recomputation and of the final save -> `Gen/FitCache.lean`, `validCacheGen_eq_mo
 and `served_is_current` are about).
 """
 import ast
+import re
 import os
 
 from .common import LEAN_DIR, REPO
@@ -976,3 +977,215 @@ def gen_fit_cache(c):
         return []
     _write_if_changed(path, CACHE_TEMPLATE % dict(valid=valid))
     return [("RtcVerif.Gen.FitCache", "RtcVerif.Gen", ["validCacheGen_eq_model", "recomputeGen_eq_model"])]
+
+
+# ---------------------------------------------------------------------------------------------
+# BSpline1D.fit: what the least-squares solve is given (knot vector, bounds of the constraint rows)
+#
+#   if interior_pts is None: if k % 2 == 1: interior_pts = S else: interior_pts = (S + S') / 2
+#                                                  C20.interiorKnots-shaped term: `if k % 2 = 1 then S else zipWith mid S S'`
+#   x[A : B]   A in {k // 2, k // 2 + 1};  B in {-k // 2, -k // 2 - 1}
+#                                                  C20.pySlice x A B'   with  -k // 2 -> (k + 1) / 2  (Python floors), `- 1` -> `+ 1`
+#   t = np.concatenate((np.full(k + 1, x[0] - delta), interior_pts, np.full(k + 1, x[-1] + delta)))
+#                                                  replicate (k + 1) (x.headD 0 - δ) ++ I ++ replicate (k + 1) (x.getLastD 0 + δ)
+#   B = np.full(<n>, inf | -inf | epsilon | -epsilon)        EVal.pinf | .ninf | .fin ε | .fin (-ε)   (row-wise: one value per block)
+#   if monotonicity != 0 / < 0 / > 0 (same for curvature): B = ...      per name: if cond then a else b
+#   monotonicity_constraints = vertcat(*[c[i + 1] - c[i] for i in range(num_knots - 1)])      frame: the dc rows
+#   g = vertcat(M, C); lbg = np.concatenate((dcMin, ssMin)); ubg = np.concatenate((dcMax, ssMax))
+#                                                  frame: same block order in g, lbg, ubg; which names are the four bounds
+
+
+def _fit_index(n, end):
+    """index expression in k: start (end=False) or the offset b of a `-b` end (end=True)"""
+    s = ast.unparse(n).replace(" ", "")
+    if not end:
+        if s == "k//2":
+            return "(k / 2)"
+        if s == "k//2+1":
+            return "(k / 2 + 1)"
+    else:
+        if s == "-k//2":
+            return "((k + 1) / 2)"
+        if s == "-k//2-1":
+            return "((k + 1) / 2 + 1)"
+    raise TranslationError("slice bound outside the table: " + s)
+
+
+def _fit_slice(n):
+    if not (isinstance(n, ast.Subscript) and isinstance(n.value, ast.Name) and n.value.id == "x"
+            and isinstance(n.slice, ast.Slice) and n.slice.step is None and n.slice.lower is not None
+            and n.slice.upper is not None):
+        raise TranslationError("not a slice x[a:-b]: " + ast.unparse(n))
+    return "(C20.pySlice x %s %s)" % (_fit_index(n.slice.lower, False), _fit_index(n.slice.upper, True))
+
+
+def _fit_interior(n):
+    if isinstance(n, ast.Subscript):
+        return _fit_slice(n)
+    if isinstance(n, ast.BinOp) and isinstance(n.op, ast.Div) and isinstance(n.right, ast.Constant) and n.right.value == 2 \
+            and isinstance(n.left, ast.BinOp) and isinstance(n.left.op, ast.Add):
+        return "(List.zipWith (fun p q => (p + q) / 2) %s %s)" % (_fit_slice(n.left.left), _fit_slice(n.left.right))
+    raise TranslationError("interior knots outside the table: " + ast.unparse(n))
+
+
+def _fit_eval(n):
+    """np.full(<count>, v) -> EVal term"""
+    if not (_is_call_path(n, "np.full") and len(n.args) == 2 and not n.keywords):
+        raise TranslationError("bound block is not np.full(n, v): " + ast.unparse(n))
+    s = ast.unparse(n.args[1]).replace(" ", "")
+    tab = {"inf": "EVal.pinf", "-inf": "EVal.ninf", "epsilon": "EVal.fin ε", "-epsilon": "EVal.fin (-ε)",
+           "np.inf": "EVal.pinf", "-np.inf": "EVal.ninf"}
+    if s not in tab:
+        raise TranslationError("bound value outside the table: " + s)
+    return tab[s]
+
+
+def _fit_cond(n):
+    if isinstance(n, ast.Compare) and len(n.ops) == 1 and isinstance(n.left, ast.Name) \
+            and n.left.id in ("monotonicity", "curvature") and isinstance(n.comparators[0], ast.Constant) \
+            and n.comparators[0].value == 0 and not isinstance(n.comparators[0].value, bool):
+        v = {"monotonicity": "mono", "curvature": "curv"}[n.left.id]
+        op = type(n.ops[0])
+        if op is ast.NotEq:
+            return "(%s ≠ 0)" % v
+        if op is ast.Lt:
+            return "(%s < 0)" % v
+        if op is ast.Gt:
+            return "(0 < %s)" % v
+        if op is ast.Eq:
+            return "(%s = 0)" % v
+    raise TranslationError("condition outside the table: " + ast.unparse(n))
+
+
+def _fit_bounds_block(stmts, env):
+    for st in stmts:
+        if isinstance(st, ast.Assign) and len(st.targets) == 1 and isinstance(st.targets[0], ast.Name):
+            env[st.targets[0].id] = _fit_eval(st.value)
+            continue
+        if isinstance(st, ast.If):
+            c = _fit_cond(st.test)
+            a, b = dict(env), dict(env)
+            _fit_bounds_block(st.body, a)
+            _fit_bounds_block(st.orelse, b)
+            for nm in set(a) | set(b):
+                if nm not in a or nm not in b:
+                    raise TranslationError("bound %s assigned in one branch only" % nm)
+                env[nm] = a[nm] if a[nm] == b[nm] else "(if %s then %s else %s)" % (c, a[nm], b[nm])
+            continue
+        raise TranslationError("statement outside the table in the bounds block: " + ast.unparse(st)[:80])
+
+
+def translate_fit_setup():
+    path = os.path.join(REPO, "src", "rtctools", "data", "interpolation", "bspline1d.py")
+    fn = _find_method(ast.parse(open(path).read()), "BSpline1D", "fit")
+    body = [st for st in fn.body if not _is_doc(st)]
+    # defaults the model's δ / ε stand for
+    interior = knots = None
+    bounds_stmts, names = [], {}
+    frame = {}
+    for st in body:
+        if isinstance(st, ast.If) and ast.unparse(st.test) == "interior_pts is None":
+            inner = [s for s in st.body if not _is_doc(s)]
+            if st.orelse or len(inner) != 1 or not isinstance(inner[0], ast.If):
+                raise TranslationError("unexpected shape of the automatic-knots block")
+            br = inner[0]
+            if ast.unparse(br.test).replace(" ", "") != "k%2==1":
+                raise TranslationError("automatic knots do not branch on k % 2 == 1")
+
+            def single(block):
+                if len(block) != 1 or not (isinstance(block[0], ast.Assign) and len(block[0].targets) == 1
+                                           and isinstance(block[0].targets[0], ast.Name)
+                                           and block[0].targets[0].id == "interior_pts"):
+                    raise TranslationError("a branch of the automatic-knots block does not assign interior_pts once")
+                return _fit_interior(block[0].value)
+
+            interior = "(if k %% 2 = 1 then %s else %s)" % (single(br.body), single(br.orelse))
+            continue
+        if isinstance(st, ast.Assign) and len(st.targets) == 1 and isinstance(st.targets[0], ast.Name):
+            nm, v = st.targets[0].id, st.value
+            if nm == "t":
+                s = ast.unparse(v).replace(" ", "")
+                if s != "np.concatenate((np.full(k+1,x[0]-delta),interior_pts,np.full(k+1,x[-1]+delta)))":
+                    raise TranslationError("knot vector outside the table: " + s[:90])
+                knots = "List.replicate (k + 1) (x.headD 0 - δ) ++ interior.getD %s ++ List.replicate (k + 1) (x.getLastD 0 + δ)"
+                continue
+            if _is_call_path(v, "np.full") and nm not in ("t",):
+                bounds_stmts.append(st)
+                continue
+            if nm in ("g", "lbg", "ubg", "monotonicity_constraints"):
+                frame[nm] = ast.unparse(v).replace(" ", "")
+                continue
+        if isinstance(st, ast.If) and isinstance(st.test, ast.Compare) and isinstance(st.test.left, ast.Name) \
+                and st.test.left.id in ("monotonicity", "curvature"):
+            bounds_stmts.append(st)
+            continue
+    if interior is None or knots is None:
+        raise TranslationError("the automatic-knots block / the knot vector were not found")
+    # `interior_pts` and `t` must not be assigned anywhere else
+    for nm, cnt in (("interior_pts", 2), ("t", 1)):
+        k_ = sum(1 for n in ast.walk(fn) if isinstance(n, (ast.Assign, ast.AugAssign)) and any(
+            isinstance(m, ast.Name) and m.id == nm
+            for tg in (n.targets if isinstance(n, ast.Assign) else [n.target]) for m in ast.walk(tg)))
+        if k_ != cnt:
+            raise TranslationError("`%s` is assigned %d times" % (nm, k_))
+    env = {}
+    _fit_bounds_block(bounds_stmts, env)
+    # frame: which names bound which block, and the block order
+    lbg = re.fullmatch(r"np\.concatenate\(\((\w+),(\w+)\)\)", frame.get("lbg", ""))
+    ubg = re.fullmatch(r"np\.concatenate\(\((\w+),(\w+)\)\)", frame.get("ubg", ""))
+    g = re.fullmatch(r"vertcat\((\w+),(\w+)\)", frame.get("g", ""))
+    if not (lbg and ubg and g):
+        raise TranslationError("g / lbg / ubg are not two-block concatenations")
+    if g.group(1) != "monotonicity_constraints" or \
+            frame.get("monotonicity_constraints") != "vertcat(*[c[i+1]-c[i]foriinrange(num_knots-1)])":
+        raise TranslationError("the first block of g is not the coefficient differences c[i+1] - c[i]")
+    need = [lbg.group(1), ubg.group(1), lbg.group(2), ubg.group(2)]
+    if any(nm not in env for nm in need) or len(set(need)) != 4:
+        raise TranslationError("a bound block of lbg / ubg is not one of the np.full blocks")
+    return interior, knots % interior, [env[nm] for nm in need]
+
+
+FIT_TEMPLATE = """import RtcVerif.Model.C20Fit
+/-!
+GENERATED on every run of the C20 check by harness/translate_c20.py from the set-up of `BSpline1D.fit`
+(src/rtctools/data/interpolation/bspline1d.py): automatic knots, knot vector, bounds of the
+monotonicity (coefficient differences) and curvature rows.  Do not edit.
+-/
+namespace RtcVerif.Gen
+open RtcVerif
+
+def interiorGen (x : List Rat) (k : Nat) : List Rat :=
+  %(interior)s
+
+def fitKnotsGen (x : List Rat) (k : Nat) (δ : Rat) (interior : Option (List Rat)) : List Rat :=
+  %(knots)s
+
+def fitBoundsGen (mono curv : Int) (ε : Rat) : C20.FitBounds :=
+  {{ dcMin := %(b0)s
+    dcMax := %(b1)s
+    ssMin := %(b2)s
+    ssMax := %(b3)s }}
+
+theorem interiorGen_eq_model (x : List Rat) (k : Nat) : interiorGen x k = C20.interiorKnots x k := rfl
+
+theorem fitKnotsGen_eq_model (x : List Rat) (k : Nat) (δ : Rat) (interior : Option (List Rat)) :
+    fitKnotsGen x k δ interior = C20.fitKnots x k δ interior := rfl
+
+theorem fitBoundsGen_eq_model (mono curv : Int) (ε : Rat) : fitBoundsGen mono curv ε = C20.fitBounds mono curv ε := by
+  unfold fitBoundsGen C20.fitBounds
+  congr 1 <;> (repeat' split) <;> first | rfl | (exfalso; omega)
+
+end RtcVerif.Gen
+"""
+
+
+def gen_fit_setup(c):
+    path = os.path.join(LEAN_DIR, "RtcVerif", "Gen", "FitSetup.lean")
+    try:
+        interior, knots, b = translate_fit_setup()
+    except TranslationError as e:
+        c.broken.append(("translator: BSpline1D.fit set-up", str(e)))
+        return []
+    text = FIT_TEMPLATE.replace("{{", "{").replace("}}", "}") % dict(interior=interior, knots=knots, b0=b[0], b1=b[1], b2=b[2], b3=b[3])
+    _write_if_changed(path, text)
+    return [("RtcVerif.Gen.FitSetup", "RtcVerif.Gen", ["interiorGen_eq_model", "fitKnotsGen_eq_model", "fitBoundsGen_eq_model"])]
